@@ -14,7 +14,11 @@ Context {V : Type} (o : ops V).
 Definition reducer := V -> V -> Z -> V * Z.
 
 Definition r_sum (cur_sum next_val : V) (count : Z) : V * Z :=
-  if truthy count then (add o cur_sum next_val, count + 1) else (next_val, count + 1).
+  if truthy count then
+    if is_null o cur_sum then (cur_sum, count + 1)
+    else if is_null o next_val then (next_val, count + 1)
+    else (add o cur_sum next_val, count + 1)
+  else (next_val, count + 1).
 
 Definition r_nansum (cur_sum next_val : V) (count : Z) : V * Z :=
   if is_null o next_val then (cur_sum, count)
